@@ -415,9 +415,20 @@ package sse
 //@   ensures id_from_header: result != nil && sentid(r) && singleLine(lastid(r)[0]) ==> result.LastEventID.set && result.LastEventID.value == lastid(r)[0]
 //@   ensures id_unset_when_absent_empty_or_invalid: result != nil && !(sentid(r) && singleLine(lastid(r)[0])) ==> !result.LastEventID.set
 //@   ensures session_fields: result != nil ==> result.Req == r && !result.didUpgrade && fresh(result)
+//@   ensures only_unwraps_the_writer: forall(c, old(ncalls()), ncalls(), iscall(c, "Unwrap"))
+
+//@ pure lastwriter(w) = ite(ncalls() == old(ncalls()), w, cret(ncalls()-1, "Unwrap", 0))
 
 //@ func getResponseWriter
-//@   ensures wraps_a_flusher: result != nil ==> hasdyn(result, "flusherErrorWrapper") || hasdyn(result, "flusherWrapper")
+//@   ensures only_unwraps: forall(c, old(ncalls()), ncalls(), iscall(c, "Unwrap"))
+//@   ensures follows_the_unwrap_chain: forall(c, old(ncalls()), ncalls(), crecv(c) == ite(c == old(ncalls()), w, cret(c-1, "Unwrap", 0)))
+//@   ensures skipped_writers_cannot_flush: forall(c, old(ncalls()), ncalls(), !implements(crecv(c), "writeFlusherError") && !implements(crecv(c), "writeFlusher"))
+//@   ensures wraps_first_flusher: result != nil ==> (hasdyn(result, "flusherErrorWrapper") && implements(lastwriter(w), "writeFlusherError")) || (hasdyn(result, "flusherWrapper") && implements(lastwriter(w), "writeFlusher") && !implements(lastwriter(w), "writeFlusherError"))
+//@   ensures nil_when_chain_ends_without_flusher: result == nil ==> !implements(lastwriter(w), "writeFlusherError") && !implements(lastwriter(w), "writeFlusher") && !implements(lastwriter(w), "rwUnwrapper")
+//@   invariant 0 only_unwraps: forall(c, old(ncalls()), ncalls(), iscall(c, "Unwrap"))
+//@   invariant 0 chain: forall(c, old(ncalls()), ncalls(), crecv(c) == ite(c == old(ncalls()), old(w), cret(c-1, "Unwrap", 0)))
+//@   invariant 0 skipped: forall(c, old(ncalls()), ncalls(), !implements(crecv(c), "writeFlusherError") && !implements(crecv(c), "writeFlusher"))
+//@   invariant 0 current: w == ite(ncalls() == old(ncalls()), old(w), cret(ncalls()-1, "Unwrap", 0)) && ncalls() >= old(ncalls())
 
 // ---------------------------------------------------------------------------------------------------------
 // message.go: wire encoding (C02, C15). io.Writer is an abstract callee recorded in the ghost call trace.
@@ -584,3 +595,50 @@ package sse
 //@   ensures flushes_exactly_once: old(s.didUpgrade) ==> ncalls() == old(ncalls()) + 1 && iscall(old(ncalls()), "Flush") && crecv(old(ncalls())) == s.Res && result == cret(old(ncalls()), "Flush", 0)
 //@   ensures stays_upgraded: old(s.didUpgrade) ==> s.didUpgrade
 //@   ensures upgraded_iff_flushed: !old(s.didUpgrade) ==> s.didUpgrade == (result == nil)
+
+//@ func flusherWrapper.Flush
+//@   ensures forwards_to_flush: ncalls() == old(ncalls()) + 1 && iscall(old(ncalls()), "Flush") && crecv(old(ncalls())) == f.writeFlusher && result == nil
+
+//@ func Server.init
+//@   trusted
+//@   requires s != nil
+//@   modifies s.provider
+//@   ensures provider_chosen: s.provider != nil && (s.Provider != nil ==> s.provider == s.Provider)
+
+//@ func getTopics
+//@   ensures default_when_empty: len(initial) == 0 ==> result == defaultTopicSlice
+//@   ensures given_otherwise: len(initial) != 0 ==> result == initial
+
+//@ func Server.getSubscription
+//@   requires s != nil && sess != nil
+//@   ensures client_and_id: result.Client == sess && result.LastEventID == sess.LastEventID
+//@   ensures no_callback_accepts_with_default_topic: s.OnSession == nil ==> result1 && result.Topics == defaultTopicSlice && ncalls() == old(ncalls())
+//@   ensures callback_asked_once: s.OnSession != nil ==> ncalls() == old(ncalls()) + 1 && iscall(old(ncalls()), "OnSession") && carg(old(ncalls()), "OnSession", 0) == sess.Res && carg(old(ncalls()), "OnSession", 1) == sess.Req
+//@   ensures callback_decides: s.OnSession != nil ==> result1 == cret(old(ncalls()), "OnSession", 1)
+//@   ensures callback_topics_or_default: s.OnSession != nil ==> result.Topics == ite(cret(old(ncalls()), "OnSession", 1) && len(cret(old(ncalls()), "OnSession", 0)) > 0, cret(old(ncalls()), "OnSession", 0), defaultTopicSlice)
+
+//@ pure subof(c) = carg(c, "Subscribe", 1)
+
+//@ func Server.ServeHTTP
+//@   requires s != nil && r != nil
+//@   modifies s.provider
+//@   ensures subscribes_at_most_once: forall(c, old(ncalls()), ncalls(), forall(d, old(ncalls()), ncalls(), iscall(c, "Subscribe") && iscall(d, "Subscribe") ==> c == d))
+//@   ensures subscription_carries_last_event_id: forall(c, old(ncalls()), ncalls(), iscall(c, "Subscribe") ==> fieldwf(subof(c).LastEventID) &&
+//@       (sentid(r) && singleLine(lastid(r)[0]) ==> subof(c).LastEventID.set && subof(c).LastEventID.value == lastid(r)[0]) &&
+//@       (!(sentid(r) && singleLine(lastid(r)[0])) ==> !subof(c).LastEventID.set))
+//@   ensures default_topic_without_callback: s.OnSession == nil ==> forall(c, old(ncalls()), ncalls(), iscall(c, "Subscribe") ==> subof(c).Topics == defaultTopicSlice)
+//@   ensures callback_chooses_topics: forall(c, old(ncalls()), ncalls(), forall(d, old(ncalls()), ncalls(), iscall(c, "Subscribe") && iscall(d, "OnSession") ==>
+//@       d < c && cret(d, "OnSession", 1) && subof(c).Topics == ite(len(cret(d, "OnSession", 0)) > 0, cret(d, "OnSession", 0), defaultTopicSlice)))
+//@   ensures callback_asked_before_subscribing: s.OnSession != nil ==> forall(c, old(ncalls()), ncalls(), iscall(c, "Subscribe") ==> c > old(ncalls()) && iscall(c-1, "OnSession"))
+//@   ensures rejected_session_gets_nothing: forall(d, old(ncalls()), ncalls(), iscall(d, "OnSession") && !cret(d, "OnSession", 1) ==> d == ncalls()-1 && forall(c, old(ncalls()), d, iscall(c, "Unwrap")))
+//@   ensures any_error_reply_is_a_final_500: forall(c, old(ncalls()), ncalls(), iscall(c, "httpError") ==> c == ncalls()-1 && crecv(c) == w && carg(c, "httpError", 1) == 500)
+//@   ensures refused_subscription_gets_500: forall(c, old(ncalls()), ncalls(), iscall(c, "Subscribe") && cret(c, "Subscribe", 0) != nil ==> c == ncalls()-2 && iscall(ncalls()-1, "httpError"))
+//@   ensures accepted_subscription_writes_nothing_more: forall(c, old(ncalls()), ncalls(), iscall(c, "Subscribe") && cret(c, "Subscribe", 0) == nil ==> c == ncalls()-1)
+//@   ensures unsupported_writer_gets_500: (forall(c, old(ncalls()), ncalls(), !iscall(c, "Subscribe") && !iscall(c, "OnSession"))) ==> ncalls() > old(ncalls()) && iscall(ncalls()-1, "httpError") && carg(ncalls()-1, "httpError", 0) == "Server-sent events unsupported"
+//@   ensures only_these_calls: forall(c, old(ncalls()), ncalls(), iscall(c, "Unwrap") || iscall(c, "OnSession") || iscall(c, "Subscribe") || iscall(c, "httpError"))
+
+//@ func Server.Publish
+//@   requires s != nil
+//@   modifies s.provider
+//@   ensures forwards_once_with_default_topic: ncalls() == old(ncalls()) + 1 && iscall(old(ncalls()), "Publish") && carg(old(ncalls()), "Publish", 0) == e &&
+//@       carg(old(ncalls()), "Publish", 1) == ite(len(topics) == 0, defaultTopicSlice, topics) && result == cret(old(ncalls()), "Publish", 0)
